@@ -220,6 +220,43 @@ theorem dec_plain (n : Nat) : plain (dec n) := decAux_plain _ _ _ (by intro c hc
 
 theorem escapeRef_dec (n : Nat) : escapeRef (dec n) = dec n := escapeRef_plain _ (dec_plain n)
 
+/-! ## the regenerated writer is the hand-written one -/
+
+/-- OBLIGATION over the regenerated statement lists (`Gen/TeamCityWriters.lean`): executing the source's statements —
+    which field is printed through `printEscaped`, every literal, the order, the guards, where `currtest_` /
+    `currGroup_` are assigned — gives, for every state and every callback, exactly the output and the next state of
+    the hand-written writer all theorems were first proved about. -/
+theorem step_eq_hand (s : St) (e : Ev) : step s e = stepHand s e := by
+  cases e with
+  | testRun i n =>
+    by_cases h : n > 1 <;>
+      simp [step, stepHand, exec, Gen.TeamCityWriters.printTestRun, condHolds, condAtomHolds, atomsOut, atomOut, numVal,
+        testRunOut, h]
+  | testsStarted => rfl
+  | groupStarted t =>
+    simp [step, stepHand, exec, Gen.TeamCityWriters.printCurrentGroupStarted, atomOut, fieldVal, groupStartedOut]
+  | testStarted t =>
+    cases hw : t.willRun <;>
+      simp [step, stepHand, exec, Gen.TeamCityWriters.printCurrentTestStarted, condHolds, condAtomHolds, atomsOut, atomOut,
+        fieldVal, testStartedOut, hw]
+  | print text => rfl
+  | failure f =>
+    by_cases hc : (f.isOutsideTestFile || f.isInHelperFunction) = true
+    · simp only [Bool.or_eq_true] at hc
+      simp [step, stepHand, exec, Gen.TeamCityWriters.printFailure, condHolds, condAtomHolds, atomsOut, atomOut, fieldVal, numVal,
+        failureOut, failurePrefix, hc]
+    · simp only [Bool.or_eq_true, not_or, Bool.not_eq_true] at hc
+      simp [step, stepHand, exec, Gen.TeamCityWriters.printFailure, condHolds, condAtomHolds, atomsOut, atomOut, fieldVal, numVal,
+        failureOut, failurePrefix, hc.1, hc.2]
+  | veryVerbose text => rfl
+  | testEnded ms c =>
+    cases hc : s.currTest <;>
+      simp [step, stepHand, exec, Gen.TeamCityWriters.printCurrentTestEnded, guardHolds, atomOut, fieldVal, numVal, testEndedOut, hc]
+  | groupEnded ms =>
+    by_cases hg : s.currGroup = [] <;>
+      simp [step, stepHand, exec, Gen.TeamCityWriters.printCurrentGroupEnded, guardHolds, atomOut, fieldVal, groupEndedOut, hg]
+  | testsEnded sm => rfl
+
 /-! ## the message view of the writer -/
 
 /-- the decoded `message` value of a `testFailed` message: optional test location, failure location -/
@@ -265,27 +302,27 @@ theorem escape_failureLocation (f : Failure) :
 
 theorem step_renders (s : St) (e : Ev) : (step s e).2 = renderAll (msgsOf s e) := by
   cases e with
-  | testRun i n => by_cases h : n > 1 <;> simp [step, msgsOf, renderAll, Msg.render, testRunOut, h]
-  | testsStarted => simp [step, msgsOf, renderAll]
+  | testRun i n => by_cases h : n > 1 <;> simp [step_eq_hand, stepHand, msgsOf, renderAll, Msg.render, testRunOut, h]
+  | testsStarted => simp [step_eq_hand, stepHand, msgsOf, renderAll]
   | groupStarted t =>
-    simp [step, msgsOf, renderAll, Msg.render, groupStartedOut, message, attr, printEscaped_eq_ref, lit]
+    simp [step_eq_hand, stepHand, msgsOf, renderAll, Msg.render, groupStartedOut, message, attr, printEscaped_eq_ref, lit]
   | testStarted t =>
     cases hw : t.willRun <;>
-      simp [step, msgsOf, renderAll, Msg.render, testStartedOut, message, attr, printEscaped_eq_ref, lit, hw]
-  | print text => simp [step, msgsOf, renderAll, Msg.render]
-  | veryVerbose text => cases hv : s.veryVerbose <;> simp [step, msgsOf, renderAll, Msg.render, hv]
+      simp [step_eq_hand, stepHand, msgsOf, renderAll, Msg.render, testStartedOut, message, attr, printEscaped_eq_ref, lit, hw]
+  | print text => simp [step_eq_hand, stepHand, msgsOf, renderAll, Msg.render]
+  | veryVerbose text => cases hv : s.veryVerbose <;> simp [step_eq_hand, stepHand, msgsOf, renderAll, Msg.render, hv]
   | failure f =>
-    simp only [step, msgsOf, renderAll, Msg.render, failureOut, message, attr, List.flatMap_cons, List.flatMap_nil,
+    simp only [step_eq_hand, stepHand, msgsOf, renderAll, Msg.render, failureOut, message, attr, List.flatMap_cons, List.flatMap_nil,
       escape_failureLocation, printEscaped_eq_ref]
     simp [lit]
   | testEnded ms c =>
     cases hc : s.currTest <;>
-      simp [step, msgsOf, renderAll, Msg.render, testEndedOut, message, attr, printEscaped_eq_ref, lit, hc, escapeRef_dec]
+      simp [step_eq_hand, stepHand, msgsOf, renderAll, Msg.render, testEndedOut, message, attr, printEscaped_eq_ref, lit, hc, escapeRef_dec]
   | groupEnded ms =>
     by_cases hg : s.currGroup = []
-    · simp [step, msgsOf, renderAll, groupEndedOut, hg]
-    · simp [step, msgsOf, renderAll, Msg.render, groupEndedOut, message, attr, printEscaped_eq_ref, lit, hg]
-  | testsEnded sm => simp [step, msgsOf, renderAll, Msg.render]
+    · simp [step_eq_hand, stepHand, msgsOf, renderAll, groupEndedOut, hg]
+    · simp [step_eq_hand, stepHand, msgsOf, renderAll, Msg.render, groupEndedOut, message, attr, printEscaped_eq_ref, lit, hg]
+  | testsEnded sm => simp [step_eq_hand, stepHand, msgsOf, renderAll, Msg.render]
 
 theorem fold_renders : ∀ (evs : List Ev) (s : St),
     (foldEvents step s evs).2 = renderAll (foldEvents msgStep s evs).2 ∧
